@@ -1,16 +1,18 @@
 #!/bin/bash
-# Confirms seeded changes produced by sub-agents: for each /tmp/mut/out/Cxx/CxxY.patch.diff
+# Confirms seeded changes produced by sub-agents: for each $SRC/Cxx/CxxY.patch.diff
 #  1. applies to a clean scratch worktree of /repo HEAD, builds, and the unedited suite passes;
 #  2. the demonstration test fails with the change and passes without it.
 # Confirmed ones are copied to /verif/seeded/<CxxY>/ (patch.diff, demo_test.go, meta.json).
 export GOFLAGS=-mod=mod GOPROXY=off GOSUMDB=off GOTOOLCHAIN=local
+export SRC=${SRC:-/tmp/mut/out}
 WT=/tmp/seedcheck
 git -C /repo worktree remove --force $WT 2>/dev/null
 git -C /repo worktree add -q --detach $WT HEAD || exit 1
 cd $WT
-for patch in /tmp/mut/out/C*/C*.patch.diff; do
+for patch in $SRC/${PAT:-C*}/C*.patch.diff; do
   id=$(basename $patch .patch.diff); prop=${id:0:3}
-  demo=/tmp/mut/out/$prop/${id}_demo_test.go
+  [ -d /verif/seeded/$id ] && continue
+  demo=$SRC/$prop/${id}_demo_test.go
   git checkout -q -- . ; rm -f zz_demo_test.go
   res="id=$id"
   if ! git apply --check $patch 2>/dev/null; then echo "$res APPLY-FAIL"; continue; fi
@@ -28,11 +30,11 @@ for patch in /tmp/mut/out/C*/C*.patch.diff; do
   echo "$res demo_clean=$clean suite_with_change=$suite demo_with_change=$mut"
   if [ $clean = pass ] && [ $suite = pass ] && [ $mut = fail ]; then
     d=/verif/seeded/$id; mkdir -p $d
-    cp $patch $d/patch.diff; cp $demo $d/demo_test.go
+    cp $patch $d/patch.diff; cp $demo $d/demo_test.go; cp $demo /verif/probes/${id}_probe_test.go
     python3 - "$id" "$prop" <<'P'
 import json,sys,re
 id,prop=sys.argv[1],sys.argv[2]
-notes=open(f'/tmp/mut/out/{prop}/NOTES.md').read()
+import os; notes=open(os.environ.get('SRC','/tmp/mut/out')+f'/{prop}/NOTES.md').read()
 json.dump({"id":id,"property":prop,"source":"independent sub-agent given only the property text and a scratch worktree",
  "confirmed":{"patch_applies_to":"/repo HEAD at confirmation time","suite_passes_with_change":True,"demo_passes_without_change":True,"demo_fails_with_change":True,
   "commands":["git apply patch.diff","go build ./... && go test -vet=off -count=1 ./...","go test -vet=off -count=1 -run TestDemo%s$ ." % id]},
